@@ -110,6 +110,8 @@ def status_text_ok(err, status, ext):
     if len(ext) == 1 and status in EXTEND_CODES and ext[0] in EXTEND_CODES[status]:
         if EXTEND_CODES[status][ext[0]] not in err:
             return f"lacks the extended status text {EXTEND_CODES[status][ext[0]]!r}"
+    elif len(ext) == 1 and f"{ext[0]:x}" not in err.lower():
+        return f"lacks the extended status {ext[0]:#06x} (present in the reply, not in the tables: its hex code is expected)"
     return None
 
 
@@ -456,6 +458,107 @@ def corrupt_cases(draw):
     return case
 
 
+class _Rewrite:
+    """wraps a target: replies to a Multiple Service Packet get another encapsulation status (the rest of the reply stays complete)"""
+
+    def __init__(self, inner, estatus):
+        self.inner, self.estatus = inner, estatus
+
+    def handle(self, frame):
+        reply = self.inner.handle(frame)
+        if reply is not None and len(frame) > 48 and frame[0] == 0x70 and frame[46] == 0x0A:
+            reply = reply[:8] + struct.pack("<I", self.estatus) + reply[12:]
+        return reply
+
+    def tcp_closed(self):
+        self.inner.tcp_closed()
+
+    def __getattr__(self, name):
+        return getattr(self.inner, name)
+
+
+def check_wrapper_refusal(op, status, ext, estatus=0):
+    """a whole Multiple Service Packet is refused (general status + 0-2 extended status words, no member data), or its reply carries
+    a non-zero encapsulation status: every request of the call is falsy with a text that names the status"""
+    from pycomm3.exceptions import PycommError
+    from ..refplc import RefPLC
+    pd = {"udts": [], "programs": [], "extras": [], "tags": [
+        {"name": "A", "scope": None, "type": "DINT", "dims": [], "instance": 3, "access": 0, "alias": False},
+        {"name": "B", "scope": None, "type": "INT", "dims": [4], "instance": 4, "access": 0, "alias": False},
+        {"name": "C", "scope": None, "type": "REAL", "dims": [], "instance": 5, "access": 0, "alias": False}]}
+    cfg = {}
+    if status:
+        cfg["forced"] = [{"when": {"service": 0x0A, "transport": "connected"}, "status": status, "ext": list(ext)}]
+    tgt = RefPLC(pd, {"/A": (11).to_bytes(4, "little"), "/B": bytes(range(8)), "/C": struct.pack("<f", 1.5)}, cfg)
+    front = _Rewrite(tgt, estatus) if estatus else tgt
+    discs = []
+    try:
+        plc = harness.open_logix(front)
+    except PycommError as e:
+        harness.uninstall()
+        return [Disc("wrapper.open-fails", repr(e))]
+    try:
+        try:
+            res = plc.read("A", "B{2}", "C") if op == "read" else plc.write(("A", 1), ("B{2}", [5, 6]), ("C", 2.5))
+        except PycommError as e:
+            return [Disc(f"wrapper.{op}.raises.{type(e).__name__}", f"status {status:#x} ext {ext} encap {estatus:#x}: {e!r}")]
+        except Exception as e:
+            if S.where(e) == "harness":
+                raise
+            return [Disc(f"wrapper.{op}.foreign.{type(e).__name__}", f"status {status:#x} ext {ext} encap {estatus:#x}: {e!r}")]
+        for tag in res:
+            if tag:
+                discs.append(Disc(f"wrapper.{op}.error-accepted" + (".estatus" if estatus else ""), f"packet refused with status {status:#x} ext {ext} encap {estatus:#x}, yet {tag!r}"[:300]))
+                break
+            if not tag.error:
+                discs.append(Disc(f"wrapper.{op}.no-error-text", f"status {status:#x} ext {ext} encap {estatus:#x}: {tag!r}"))
+                break
+            if status and not estatus:
+                why = status_text_ok(str(tag.error), status, list(ext))
+                if why:
+                    discs.append(Disc(f"wrapper.{op}.error-text", f"packet refused with status {status:#x} ext {ext}: {tag!r} {why}"[:400]))
+                    break
+        if op == "write" and status and not estatus and (tgt.memory["/A"] != (11).to_bytes(4, "little")):
+            discs.append(Disc("wrapper.write.applied", "the refused packet's writes changed the controller"))
+        plc.close()
+    except PycommError:
+        pass
+    finally:
+        harness.uninstall()
+    return discs
+
+
+def check_time_value(us):
+    """the controller reports a clock value of `us` microseconds: get_plc_time answers with a Tag (falsy if the value cannot be
+    represented) or a library exception, never anything else"""
+    from pycomm3.exceptions import PycommError
+    from ..refplc import RefPLC
+    pd = {"udts": [], "programs": [], "extras": [], "tags": [{"name": "A", "scope": None, "type": "DINT", "dims": [], "instance": 3, "access": 0, "alias": False}]}
+    tgt = RefPLC(pd, {"/A": bytes(4)}, {"wall_clock": us})
+    try:
+        plc = harness.open_logix(tgt)
+    except PycommError as e:
+        harness.uninstall()
+        return [Disc("time.open-fails", repr(e))]
+    try:
+        try:
+            t = plc.get_plc_time()
+        except PycommError:
+            return []
+        except Exception as e:
+            if S.where(e) == "harness":
+                raise
+            return [Disc(f"time.foreign.{type(e).__name__}", f"clock value {us}: {e!r}")]
+        if t and t.value["microseconds"] != us:
+            return [Disc("time.value", f"clock value {us}: {t!r}"[:300])]
+        plc.close()
+    except PycommError:
+        pass
+    finally:
+        harness.uninstall()
+    return []
+
+
 def check_unknown_type(code):
     """the symbol list names a tag whose atomic type code the client does not know: every call that touches it answers with a falsy
     Tag, other requests of the call are unaffected, nothing but a library exception may escape"""
@@ -504,6 +607,7 @@ def check_unknown_type(code):
 def plan(tier):
     jobs = [{"part": "matrix", "kind": k} for k in KINDS]
     jobs.append({"part": "unknown-type"})
+    jobs.append({"part": "wrapper"})
     jobs.append({"part": "multi"})
     jobs.append({"part": "short"})
     n = 8 if tier == "quick" else 32
@@ -518,6 +622,23 @@ EXTS = [[], [0x0000], [0x0100], [0x2105], [0x0204], [0xFFFF], [0x0001, 0x0002]]
 
 def run_job(ctx, job):
     part = job["part"]
+    if part == "wrapper":
+        exts = [[], [0x0001], [0x2105], [0x0204], [0x00CD, 0x0000], [0x0204, 0x0000], [0x0002, 0x1234], [0x0109, 0x01F4]]
+        for op in ("read", "write"):
+            for status in [1, 2, 4, 5, 8, 0x0F, 0x10, 0x11, 0x13, 0x15, 0x20, 0x26, 0x77, 0xFF]:
+                for ext in exts:
+                    for d in check_wrapper_refusal(op, status, ext):
+                        ctx.violation(d, "wrapper", {"op": op, "status": status, "ext": ext, "estatus": 0})
+                    ctx.case(("wrapper", op, status, tuple(ext)), True, ["matrix", "wrapper-refusal"])
+            for us in [0, 1, 1_600_000_000_000_000, 253402300799999999, 253402300800000000, 2 ** 63 - 1, 2 ** 63, 2 ** 64 - 1]:
+                for d in check_time_value(us):
+                    ctx.violation(d, "time", {"us": us})
+                ctx.case(("time", us), True, ["time-value"])
+            for estatus in [1, 2, 3, 0x64, 0x65, 0x69, 0x04, 0xFFFF, 0x80000000]:
+                for d in check_wrapper_refusal(op, 0, [], estatus):
+                    ctx.violation(d, "wrapper", {"op": op, "status": 0, "ext": [], "estatus": estatus})
+                ctx.case(("wrapper-estatus", op, estatus), True, ["matrix", "wrapper-refusal"])
+        return
     if part == "unknown-type":
         from pycomm3 import DataTypes
         known = {c for c in range(0x1000) if DataTypes.get(c) is not None}
@@ -584,4 +705,8 @@ def replay(ctx, kind, case):
         return check_forced(case)[0]
     if kind == "unknown-type":
         return check_unknown_type(case["code"])
+    if kind == "time":
+        return check_time_value(case["us"])
+    if kind == "wrapper":
+        return check_wrapper_refusal(case["op"], case["status"], case["ext"], case.get("estatus", 0))
     return check_corrupt(case)
